@@ -441,4 +441,344 @@ theorem inv_purge {st : St} {s : SS} (h : Inv st s) :
       exact hold'
 
 
+
+def markRun (acc : List Bool) (j n : Nat) : List Bool :=
+  (List.range n).foldl (fun a k => setTrue a (j + k)) acc
+
+theorem setTrue_length (a : List Bool) (i : Nat) : (setTrue a i).length = a.length := by
+  simp [setTrue]
+
+theorem setTrue_getD (a : List Bool) (i k : Nat) :
+    (setTrue a i).getD k false = if k = i ∧ i < a.length then true else a.getD k false := by
+  simp only [setTrue, List.getD_eq_getElem?_getD, List.getElem?_set]
+  by_cases hik : i = k
+  · subst hik
+    by_cases hl : i < a.length
+    · simp [hl]
+    · simp [hl]
+  · have : ¬ (k = i ∧ i < a.length) := by intro h; exact hik h.1.symm
+    simp [hik, this]
+
+theorem markRun_length (acc : List Bool) (j n : Nat) : (markRun acc j n).length = acc.length := by
+  induction n with
+  | zero => rfl
+  | succ n ih => simp [markRun, List.range_succ, List.foldl_append] at ih ⊢; rw [setTrue_length]; exact ih
+
+theorem markRun_succ (acc : List Bool) (j n : Nat) :
+    markRun acc j (n + 1) = setTrue (markRun acc j n) (j + n) := by
+  simp [markRun, List.range_succ, List.foldl_append]
+
+theorem markRun_mono (acc : List Bool) (j n i : Nat) (h : acc.getD i false = true) :
+    (markRun acc j n).getD i false = true := by
+  induction n with
+  | zero => exact h
+  | succ n ih =>
+    rw [markRun_succ, setTrue_getD]
+    split
+    · rfl
+    · exact ih
+
+theorem markRun_set (acc : List Bool) (j n k : Nat) (hk : k < n) (hl : j + n ≤ acc.length) :
+    (markRun acc j n).getD (j + k) false = true := by
+  induction n with
+  | zero => omega
+  | succ n ih =>
+    rw [markRun_succ, setTrue_getD]
+    by_cases hkn : k = n
+    · subst hkn; rw [if_pos ⟨rfl, by rw [markRun_length]; omega⟩]
+    · rw [if_neg (by intro h; omega)]
+      exact ih (by omega) (by omega)
+
+
+theorem sendFrom_fail (s : SS) (script : List Resp) (j n : Nat) (w : Int) (failed : Nat) (_hn : n ≥ 1)
+    (hall : ∀ k, k < n - 1 → releases s.drop (script.getD k r204) = true)
+    (hlast : releases s.drop (script.getD (n - 1) r204) = false)
+    (hdelay : delayOk (if n ≥ 2 then 0 else s.fails) (script.getD (n - 1) r204) w = true)
+    (hfailed : failed = (if n ≥ 2 then 0 else s.fails) + 1) :
+    sendFrom s script j n w true failed
+      = some { s with acc := markRun s.acc j (n - 1), posted := max s.posted (j + n), fails := failed } := by
+  have hab : ((List.range (n - 1)).all fun k => releases s.drop (respAt script k)) = true := by
+    rw [List.all_eq_true]; intro k hk; exact hall k (List.mem_range.mp hk)
+  unfold sendFrom
+  simp only [hab, Bool.not_true, Bool.false_eq_true, if_false]
+  have hl : releases s.drop (respAt script (n - 1)) = false := hlast
+  simp only [hl, Bool.false_eq_true, if_false]
+  have hd : delayOk (if n ≥ 2 then 0 else s.fails) (respAt script (n - 1)) w = true := hdelay
+  rw [hd, hfailed]
+  simp [markRun]
+
+theorem sendFrom_ok (s : SS) (script : List Resp) (j n : Nat) (hn : n ≥ 1)
+    (hall : ∀ k, k < n → releases s.drop (script.getD k r204) = true) :
+    sendFrom s script j n 0 true 0
+      = some { s with acc := markRun s.acc j n, posted := max s.posted (j + n), fails := 0 } := by
+  have hab : ((List.range (n - 1)).all fun k => releases s.drop (respAt script k)) = true := by
+    rw [List.all_eq_true]; intro k hk; exact hall k (by have := List.mem_range.mp hk; omega)
+  have hl : releases s.drop (respAt script (n - 1)) = true := hall (n - 1) (by omega)
+  unfold sendFrom
+  simp only [hab, hl, Bool.not_true, Bool.false_eq_true, if_false, if_true]
+  have : markRun s.acc j n = setTrue (markRun s.acc j (n - 1)) (j + n - 1) := by
+    obtain ⟨m, rfl⟩ : ∃ m, n = m + 1 := ⟨n - 1, by omega⟩
+    rw [markRun_succ]; simp
+  rw [this]; simp [markRun]
+
+theorem take_append_le {α} (a b : List α) (m : Nat) (h : m ≤ a.length) : (a ++ b).take m = a.take m := by
+  rw [List.take_append]; simp [Nat.sub_eq_zero_of_le h]
+
+theorem inv_send {st : St} {s : SS} (h : Inv st s) (script : List Resp) :
+    ∃ s', s' ∈ wstep s (.send script)
+        (.sent (st.send script).2.posted (st.send script).2.wait (st.send script).2.retry (st.send script).1.failed)
+      ∧ Inv (st.send script).1 s' := by
+  obtain ⟨pre, henq, hgone, hle, hold⟩ := h.split
+  have hso := h.segs
+  cases hsegs : st.segs with
+  | nil => exact absurd hsegs hso.ne
+  | cons a t =>
+    rw [hsegs] at henq hold
+    by_cases hae : a.rest = []
+    · -- nothing to send
+      have hsend : st.send script = (st, ⟨[], 0, false⟩) := by simp [St.send, hsegs, hae]
+      obtain ⟨ht, _⟩ := hso.headEmpty a t hsegs hae
+      subst ht
+      rw [hsend]
+      refine ⟨s, ?_, h⟩
+      simp only [wstep, List.isEmpty_nil, if_true]
+      have hg : s.goneOk s.enq.length = true := by
+        have : s.enq.length = pre.length := by simp [henq, hae]
+        rw [this]; exact hgone
+      simp [h.fails, hg]
+    · -- the scan
+      obtain ⟨m, hm, hpost, hnone, hsome⟩ := sendLoop_full st.drop a.rest script st.failed []
+      simp only [List.nil_append] at hpost
+      have hjs : ∀ n, n ≤ a.rest.length →
+          pre.length ∈ (List.range (s.enq.length + 1)).filter (fun j =>
+            (s.enq.drop j).take n == a.rest.take n && s.goneOk j && decide (j ≤ max s.posted s.mayPurged)) := by
+        intro n hn
+        rw [List.mem_filter]
+        refine ⟨List.mem_range.mpr (by simp [henq]; omega), ?_⟩
+        have : (s.enq.drop pre.length).take n = a.rest.take n := by
+          rw [henq, List.drop_left, entries_cons, take_append_le _ _ _ hn]
+        simp [this, hgone, hle]
+      cases hres : sendLoop st.drop a.rest script st.failed [] with
+      | mk posted rest2 =>
+        obtain ⟨failed', ow⟩ := rest2
+        rw [hres] at hpost hnone hsome
+        simp only at hpost hnone hsome
+        cases ow with
+        | some w =>
+          obtain ⟨hm1, hall, hlast, hdec, hf'⟩ := hsome w rfl
+          have hsend : st.send script = ({ st with failed := failed' }, ⟨posted, w, true⟩) := by
+            simp [St.send, hsegs, hae, hres]
+          rw [hsend]
+          simp only
+          have hdrop := h.drop
+          have hfails := h.fails
+          have hsf := sendFrom_fail s script pre.length m w failed' hm1
+            (by rw [hdrop]; exact hall) (by rw [hdrop]; exact hlast)
+            (by rw [hfails]; exact delayOk_of_fail _ _ _ _ hdec) (by rw [hfails]; exact hf')
+          refine ⟨{ s with acc := markRun s.acc pre.length (m - 1), posted := max s.posted (pre.length + m),
+                           fails := failed' }, ?_, ?_⟩
+          · simp only [wstep]
+            have hpe : posted.isEmpty = false := by
+              rw [hpost]; cases har : a.rest with
+              | nil => exact absurd har hae
+              | cons x xs => obtain ⟨m', rfl⟩ : ∃ m', m = m' + 1 := ⟨m - 1, by omega⟩; simp
+            simp only [hpe, Bool.false_eq_true, if_false]
+            rw [List.mem_filterMap]
+            have hlen : posted.length = m := by rw [hpost]; simp; omega
+            refine ⟨pre.length, ?_, ?_⟩
+            · rw [hlen, hpost]; exact hjs m hm
+            · rw [hlen]; exact hsf
+          · refine ⟨⟨pre, by simp [hsegs, henq], ?_, by simp; omega, by simp [hsegs]; exact hold⟩,
+              rfl, h.drop, by simp [markRun_length, h.accLen], by simp; exact hso⟩
+            exact goneOk_mono hgone (fun i hi => markRun_mono _ _ _ _ hi) (Nat.le_refl _)
+        | none =>
+          obtain ⟨hmeq, hf0, _, hall⟩ := hnone rfl
+          subst hmeq
+          have hf0' := hf0 hae
+          have hposted : posted = a.rest := by rw [hpost]; simp
+          have hsend : st.send script =
+              ({ st with failed := failed',
+                         segs := trimHead st.maxSeg ({ a with rest := [], old := false } :: t) },
+               ⟨posted, 0, true⟩) := by
+            simp [St.send, hsegs, hae, hres]
+          rw [hsend]
+          simp only
+          have hn1 : a.rest.length ≥ 1 := by
+            cases har : a.rest with
+            | nil => exact absurd har hae
+            | cons x xs => simp
+          have hsf := sendFrom_ok s script pre.length a.rest.length hn1 (by rw [h.drop]; exact hall)
+          refine ⟨{ s with acc := markRun s.acc pre.length a.rest.length,
+                           posted := max s.posted (pre.length + a.rest.length), fails := 0 }, ?_, ?_⟩
+          · simp only [wstep]
+            have hpe : posted.isEmpty = false := by
+              rw [hposted]; cases har : a.rest with
+              | nil => exact absurd har hae
+              | cons x xs => rfl
+            simp only [hpe, Bool.false_eq_true, if_false]
+            rw [List.mem_filterMap]
+            refine ⟨pre.length, ?_, ?_⟩
+            · have := hjs a.rest.length (Nat.le_refl _)
+              rw [hposted]; simpa using this
+            · rw [hposted, hf0']; exact hsf
+          · -- invariant after the head segment is gone
+            have hent' : entries (trimHead st.maxSeg ({ a with rest := [], old := false } :: t)) = entries t := by
+              cases t with
+              | nil => simp only [trimHead]; split <;> simp [freshSeg]
+              | cons b t' => simp [trimHead]
+            have hacc : s.acc.length = s.enq.length := h.accLen
+            refine ⟨⟨pre ++ a.rest, ?_, ?_, ?_, ?_⟩, by simp [hf0'], h.drop,
+              by simp [markRun_length, h.accLen], ?_⟩
+            · simp [hent', henq]
+            · rw [goneOk_iff]
+              intro i hi
+              by_cases hip : i < pre.length
+              · rcases (goneOk_iff _ _).mp hgone i hip with h1 | h1
+                · exact Or.inl (markRun_mono _ _ _ _ h1)
+                · exact Or.inr h1
+              · left
+                simp only [List.length_append] at hi
+                obtain ⟨k, rfl⟩ : ∃ k, i = pre.length + k := ⟨i - pre.length, by omega⟩
+                exact markRun_set _ _ _ k (by omega) (by rw [hacc, henq]; simp)
+            · simp only [List.length_append]; show _ ≤ max (max s.posted (pre.length + a.rest.length)) s.mayPurged
+              omega
+            · simp only [List.length_append]
+              cases t with
+              | nil => simp only [trimHead]; split <;> simp [OldOk, freshSeg]
+              | cons b t' => simp only [trimHead]; exact hold.2
+            · simp only
+              cases t with
+              | nil =>
+                simp only [trimHead]
+                split
+                · exact segsOk_fresh _ hso.maxSeg8
+                · next hsz =>
+                  refine ⟨by simp, ?_, ?_, hso.maxSeg8⟩
+                  · intro h0 t0 heq x hx; simp at heq; rw [heq.2] at hx; cases hx
+                  · intro h0 t0 heq _; simp at heq; rw [← heq.1]; exact ⟨heq.2, by simp at hsz ⊢; omega⟩
+              | cons b t' =>
+                simp only [trimHead]
+                rw [hsegs] at hso
+                exact segsOk_tail hso
+
+
+
+/-- the segment size handed to the durable queue leaves room for a footer
+    (production always passes `durablequeue.DefaultSegmentSize`) -/
+def ValidOp : Op → Prop
+  | .init _ _ g => 8 ≤ g
+  | _ => True
+
+/-- model state and checker state agree -/
+def Rel : State → SpecState → Prop
+  | none, none => True
+  | some st, some ws => ∃ s, s ∈ ws ∧ Inv st s
+  | _, _ => False
+
+theorem inv_init (d : Bool) (a : Int) (g : Nat) (h8 : 8 ≤ g) : Inv (initSt d a g) { drop := d } := by
+  refine ⟨⟨[], by simp [initSt, freshSeg], by simp [SS.goneOk], by simp, by simp [initSt, OldOk, freshSeg]⟩,
+    rfl, rfl, rfl, segsOk_fresh g h8⟩
+
+theorem sim_step (ms : State) (ss : SpecState) (op : Op) (hr : Rel ms ss) (hv : ValidOp op) :
+    Rel (step ms op).1 (sstep ss (op, (step ms op).2)) := by
+  cases op with
+  | backoff n =>
+    have : step ms (.backoff n) = (ms, .dur (backoff n)) := by
+      cases ms <;> rfl
+    rw [this]
+    simp only [sstep]
+    rw [backoff_eq_doc]
+    simpa using hr
+  | init d a g =>
+    cases ms with
+    | none =>
+      cases ss with
+      | some ws => exact absurd hr (by simp [Rel])
+      | none =>
+        simp only [step, sstep]
+        exact ⟨_, by simp, inv_init d a g hv⟩
+    | some st =>
+      cases ss with
+      | none => exact absurd hr (by simp [Rel])
+      | some ws =>
+        obtain ⟨s, hs, hinv⟩ := hr
+        simp only [step, sstep]
+        exact ⟨s, List.mem_flatMap.mpr ⟨s, hs, by simp [wstep]⟩, hinv⟩
+  | enq b =>
+    cases ms with
+    | none =>
+      cases ss with
+      | some ws => exact absurd hr (by simp [Rel])
+      | none => simp [step, sstep, Rel]
+    | some st =>
+      cases ss with
+      | none => exact absurd hr (by simp [Rel])
+      | some ws =>
+        obtain ⟨s, hs, hinv⟩ := hr
+        simp only [step, sstep]
+        exact ⟨_, List.mem_flatMap.mpr ⟨s, hs, by simp [wstep]⟩, inv_enq hinv b⟩
+  | send script =>
+    cases ms with
+    | none =>
+      cases ss with
+      | some ws => exact absurd hr (by simp [Rel])
+      | none => simp [step, sstep, Rel]
+    | some st =>
+      cases ss with
+      | none => exact absurd hr (by simp [Rel])
+      | some ws =>
+        obtain ⟨s, hs, hinv⟩ := hr
+        obtain ⟨s', hs', hinv'⟩ := inv_send hinv script
+        simp only [step, sstep]
+        exact ⟨s', List.mem_flatMap.mpr ⟨s, hs, hs'⟩, hinv'⟩
+  | age =>
+    cases ms with
+    | none =>
+      cases ss with
+      | some ws => exact absurd hr (by simp [Rel])
+      | none => simp [step, sstep, Rel]
+    | some st =>
+      cases ss with
+      | none => exact absurd hr (by simp [Rel])
+      | some ws =>
+        obtain ⟨s, hs, hinv⟩ := hr
+        simp only [step, sstep]
+        exact ⟨_, List.mem_flatMap.mpr ⟨s, hs, by simp [wstep]⟩, inv_age hinv⟩
+  | purge =>
+    cases ms with
+    | none =>
+      cases ss with
+      | some ws => exact absurd hr (by simp [Rel])
+      | none => simp [step, sstep, Rel]
+    | some st =>
+      cases ss with
+      | none => exact absurd hr (by simp [Rel])
+      | some ws =>
+        obtain ⟨s, hs, hinv⟩ := hr
+        simp only [step, sstep]
+        exact ⟨_, List.mem_flatMap.mpr ⟨s, hs, by simp [wstep]⟩, inv_purge hinv⟩
+  | dump =>
+    cases ms with
+    | none =>
+      cases ss with
+      | some ws => exact absurd hr (by simp [Rel])
+      | none => simp [step, sstep, Rel]
+    | some st =>
+      cases ss with
+      | none => exact absurd hr (by simp [Rel])
+      | some ws =>
+        obtain ⟨s, hs, hinv⟩ := hr
+        simp only [step, sstep]
+        exact ⟨s, List.mem_flatMap.mpr ⟨s, hs, inv_dump hinv⟩, hinv⟩
+
+theorem sim_trace (ops : List Op) : ∀ (ms : State) (ss : SpecState), Rel ms ss → (∀ op ∈ ops, ValidOp op) →
+    ∃ ms', Rel ms' ((trace ms ops).foldl sstep ss) := by
+  induction ops with
+  | nil => intro ms ss hr _; exact ⟨ms, by simpa [trace] using hr⟩
+  | cons op ops ih =>
+    intro ms ss hr hv
+    simp only [trace, List.foldl_cons]
+    exact ih _ _ (sim_step ms ss op hr (hv op (by simp))) (fun o ho => hv o (by simp [ho]))
+
+
 end Influx.Repl
